@@ -146,8 +146,9 @@ def check(run):
     j = vlib.Job()
     models = []
     for k in range(n):
-        M = docgen.gen(rng, ntempl=rng.choice([1, 1, 2, 3] + ([4, 5] if thorough else [])), allow_anon=False, branchpoints=False, xta_common=True)
         oldsyn = rng.random() < 0.15
+        # branchpoints (declared between the locations and their flags in the textual format; the 3.x syntax has none)
+        M = docgen.gen(rng, ntempl=rng.choice([1, 1, 2, 3] + ([4, 5] if thorough else [])), allow_anon=False, branchpoints=not oldsyn and rng.random() < 0.5, xta_common=True)
         if oldsyn:
             docgen.oldify(M, rng)
             if rng.random() < 0.5:
